@@ -538,6 +538,10 @@ STATIC_CULPRITS = [
     # for the warning; both in a multi-line match
     ("unreachable-arm-hint", "fn main() {{\n    let a = match 1 {{\n        {C},\n        2 => 3,\n        4 => 5,\n    }};\n    println(a);\n}}\n", "_ => 1", 0, "Any branches following this arm"),
     ("unreachable-arm-warning", "fn main() {{\n    let a = match 1 {{\n        _ => 1,\n        {C},\n        4 => 5,\n    }};\n    println(a);\n}}\n", "2 => 3", 2, "This match-arm is unreachable"),
+    # a local shadowed in its own scope before it was read: the WARNING names the first declaration, the HINT the second
+    ("shadowed-unused-warning", "fn main() {{\n    let {C} = 1;\n    // between\n    let total = 2;\n    println(total);\n}}\n", "total", 2, "Unused variable 'total'"),
+    ("shadowed-unused-hint", "fn main() {{\n    let second = 1;\n    // between\n    let {C};\n    println(second);\n}}\n", "second = 2", 0, "Variable 'second' shadowed here"),
+    ("shadowed-unused-param", "fn f({C}: int) -> int {{\n    let amount = 2;\n    amount\n}}\nfn main() {{\n    println(f(1));\n}}\n", "amount", 2, "Unused parameter 'amount'"),
     ("unused-import-host", "import {{ ping, {C} }} from net;\nfn main() {{\n    println(ping(\"a\", 1.0));\n}}\n", "http", 2, "Import `http` is unused"),
 ]
 
